@@ -16,7 +16,7 @@
 (* Dev # "none" swaps in a named deviation (vacuity guard).                *)
 (***************************************************************************)
 EXTENDS Pem, Wif, TLC, FiniteSets
-CONSTANTS WifKeys, WifSuffixLens, LongSuffixLen, B64Bytes, B64Chars, B64MaxChars, WrapLens, EmitRows, Dev
+CONSTANTS WifKeys, WifSuffixLens, LongSuffixLen, LongEvery, B64Bytes, B64Chars, B64MaxChars, WrapLens, EmitRows, Dev
 VARIABLE c
 
 F == 0..(CP - 1)
@@ -46,7 +46,7 @@ Sec1Cases(g) == IF g > XMax THEN {} ELSE
   \cup [k : {"sec1"}, pre : Prefixes, x : {g}, y : {0, 1, CP - 1}, lv : {64, 66}]
 WifCases(g) == IF g > 23 THEN {} ELSE
        [k : {"wif"}, i : {g}, key : WifKeys, sl : WifSuffixLens]
-  \cup [k : {"wif"}, i : {g}, key : {1}, sl : {LongSuffixLen}]
+  \cup [k : {"wif"}, i : {g} \cap {j \in 0..23 : (j % LongEvery) = 0}, key : {1}, sl : {LongSuffixLen}]
   \cup [k : {"wifx"}, i : {g}, v : 1..6]
 PemCases(g) == IF g > CN + 1 THEN {} ELSE [k : {"pem"}, d : {g}]
 B64Cases(g) == IF g # 0 THEN {} ELSE
@@ -83,12 +83,14 @@ Sec1RoundTrip == c.k = "sec1" /\ D(SB).ok =>
 WK == KeyBytes(c.key)
 WS == Suffix(c.sl)
 WE == WifEnc(Combo(c.i).net, Combo(c.i).type, WK, WS)
-WifRefusesInvalidKey == c.k = "wif" => (WE.ok <=> (c.key \in 1..(CN - 1)))
-WifRoundTrip == c.k = "wif" /\ WE.ok =>
-    /\ WifDec(WE.v) = Ok([key |-> WK, type |-> Combo(c.i).type, net |-> NetClass(Combo(c.i).net), suffix |-> WS,
-                          version |-> WifVersion(Combo(c.i).net, Combo(c.i).type)])
-    /\ ~WifMustReject(WE.v)
+(* one invariant per case kind so that the (long) Base58 conversions are evaluated once per case *)
+WifExact == c.k = "wif" =>
+    LET we == WE IN
+    /\ we.ok <=> (c.key \in 1..(CN - 1))                                   \* keys 0, >= n and of the wrong length are refused
     /\ KnownVersion(WifVersion(Combo(c.i).net, Combo(c.i).type))
+    /\ (we.ok => WifDec(we.v) = Ok([key |-> WK, type |-> Combo(c.i).type, net |-> NetClass(Combo(c.i).net), suffix |-> WS,
+                                     version |-> WifVersion(Combo(c.i).net, Combo(c.i).type)]))
+    /\ (EmitRows => PrintT(<<"R", "wif", Combo(c.i).net, Combo(c.i).type, WK, WS, we.ok, we.v>>))
 (* version byte determines (network class, type) and vice versa *)
 ASSUME \A i, j \in 0..23 :
     (WifVersion(Combo(i).net, Combo(i).type) = WifVersion(Combo(j).net, Combo(j).type))
@@ -107,11 +109,12 @@ WifX ==
          [] c.v = 5 -> SubSeq(good, 1, Len(good) - 1 - (c.i % 3))                                       \* truncated
          [] c.v = 6 -> IF c.i = 0 THEN <<>> ELSE IF c.i = 1 THEN B58!EncCheck(<<>>) ELSE good \o <<48 + (c.i % 2)>>  \* empty / empty payload / '0','1' appended
 WifAcceptIsImage == c.k = "wifx" =>
-    LET s == WifX  d == WifDec(s) IN
+    LET s == WifX  d == WifDec(s)  must == WifMustReject(s) IN
     /\ (c.v \in {1, 2, 3} => ~d.ok)
-    /\ (c.v = 1 => WifMustReject(s))
-    /\ (WifMustReject(s) => ~d.ok)
+    /\ (c.v = 1 => must)
+    /\ (must => ~d.ok)
     /\ (d.ok => \E net \in {"mainnet", "testnet"} : WifEnc(net, d.v.type, d.v.key, d.v.suffix) = Ok(s) /\ NetClass(net) = d.v.net)
+    /\ (EmitRows => PrintT(<<"R", "wifx", c.v, s, d.ok, must, IF d.ok THEN <<d.v.key, d.v.type, d.v.net, d.v.suffix>> ELSE <<>> >>))
 
 (* ------------------------------ PEM ------------------------------ *)
 PemEncPrivDev(key) ==     \* deviation: private key written as a minimal integer (leading zero bytes dropped)
@@ -179,14 +182,11 @@ WrapExact == c.k = "wrap" =>
 (* ------------------------------ stage-B rows ------------------------------ *)
 Row == CASE c.k = "sec1" -> <<"R", "sec1", c.pre, c.x, c.y, c.lv, Sec1Dec(SB).ok, Sec1Dec(SB).v,
                                    IF Sec1Dec(SB).ok THEN Sec1Enc(Sec1Dec(SB).v, TRUE) ELSE <<>> >>
-         [] c.k = "wif"  -> <<"R", "wif", Combo(c.i).net, Combo(c.i).type, WK, WS, WE.ok, WE.v>>
-         [] c.k = "wifx" -> LET d == WifDec(WifX) IN
-                            <<"R", "wifx", c.v, WifX, d.ok, WifMustReject(WifX), IF d.ok THEN <<d.v.key, d.v.type, d.v.net, d.v.suffix>> ELSE <<>> >>
          [] c.k = "pem"  -> IF c.d \in 1..(CN - 1)
                             THEN <<"R", "pem", PK, PemEncPriv(PK).v, Sec1Enc(PubOf(c.d), TRUE), PemEncPub(Sec1Enc(PubOf(c.d), TRUE)).v,
                                    Sec1Enc(PubOf(c.d), FALSE), PemEncPub(Sec1Enc(PubOf(c.d), FALSE)).v>>
                             ELSE <<"R", "pembad", PK>>
          [] c.k = "wrap" -> <<"R", "wrap", Pattern(c.n), Armor(LabelPriv, Pattern(c.n))>>
          [] OTHER -> <<"R", "none">>
-Emit == (EmitRows /\ c.k \in {"sec1", "wif", "wifx", "pem", "wrap"}) => PrintT(Row)
+Emit == (EmitRows /\ c.k \in {"sec1", "pem", "wrap"}) => PrintT(Row)
 =============================================================================
